@@ -335,6 +335,15 @@ fn rewrite_stream(rep: &mut Report, rng: &mut Rng) {
             if !c.keep.is_empty() { rep.count("cfg.keep"); }
             if c.ine { rep.count("cfg.ignore_not_existing"); }
             rep.count(&format!("cfg.filter={:?}", c.filter));
+            if !t.rel_links.is_empty() {
+                rep.count("symlink.case_on_linked_tree");
+                let names: Vec<&str> = t.rel_links.iter().map(|(p, _)| p.rsplit('/').next().unwrap()).collect();
+                for (k, _) in &case.entries {
+                    if k.replace('\\', "/").split('/').any(|c| names.contains(&c)) {
+                        rep.count("symlink.key_names_a_link");
+                    }
+                }
+            }
             match &r {
                 Err(_) => rep.count("out.panic"),
                 Ok(v) => {
@@ -421,7 +430,58 @@ fn witnesses(rep: &mut Report) {
         rep.count(&format!("witness.{}", name));
         check_case(rep, &t, &case, &out, &model[0]);
     }
+    symlink_witnesses(rep);
     std::env::set_current_dir("/verif").unwrap();
+}
+
+/// Props.C11.C11_symlink_situations / C11_symlink_physical_false on the real code: the tree of
+/// `symFS` (`/s` = <root>/src, `/o` = <root>/other, `/l` = <root>/srclink)
+fn symlink_witnesses(rep: &mut Report) {
+    let base = rep.workdir.join("fs");
+    let s = |x: &[&str]| -> Vec<String> { x.iter().map(|y| y.to_string()).collect() };
+    let mut t = materialise(&base, 903, &s(&["src", "other", "cw", "src/lib", "src/lib/sub"]),
+        &s(&["other/a.c", "src/lib/u.c", "src/u.c"]));
+    let links: Vec<(String, String)> = [
+        ("src/out", "{root}/other"), ("other/in", "{root}/src/lib"), ("src/inc", "lib"), ("srclink", "{root}/src"),
+        ("src/l.c", "u.c"), ("src/dang", "nowhere/x.c"), ("src/loop", "loop"), ("src/deep", "lib/sub"),
+        ("src/c1", "c2"), ("src/c2", "lib/u.c"),
+    ].iter().map(|(a, b)| (a.to_string(), b.to_string())).collect();
+    add_links(&mut t, &links);
+    std::env::set_current_dir(&t.cw).unwrap();
+    let (src, other, lnk) = (t.src.clone(), t.other.clone(), format!("{}/srclink", t.root));
+    let table: Vec<(&str, String, String, String, String)> = vec![
+        ("link_out_of_source_dir", src.clone(), "out/a.c".into(), format!("{}/a.c", other), "out/a.c".into()),
+        ("link_into_source_dir", src.clone(), format!("{}/in/u.c", other), format!("{}/lib/u.c", src), "lib/u.c".into()),
+        ("dir_link_inside", src.clone(), "inc/u.c".into(), format!("{}/lib/u.c", src), "lib/u.c".into()),
+        ("file_link_chain", src.clone(), "c1".into(), format!("{}/lib/u.c", src), "lib/u.c".into()),
+        ("dotdot_after_link", src.clone(), "deep/../u.c".into(), format!("{}/lib/u.c", src), "lib/u.c".into()),
+        ("dangling", src.clone(), "dang".into(), format!("{}/dang", src), "dang".into()),
+        ("loop", src.clone(), "loop".into(), format!("{}/loop", src), "loop".into()),
+        ("source_dir_is_link_relative_key", lnk.clone(), "u.c".into(), format!("{}/u.c", src), "u.c".into()),
+        ("source_dir_is_link_absolute_key", lnk.clone(), format!("{}/u.c", lnk), format!("{}/u.c", src), format!("{}/u.c", src)),
+        ("link_behind_missing_dir", src.clone(), "nx/../l.c".into(), format!("{}/l.c", src), "l.c".into()),
+    ];
+    for (name, sd, key, abs, rel) in table {
+        let case = Case {
+            cfg: Cfg { sd: Some(sd), pd: None, mapping: None, ignore: vec![], keep: vec![], ine: false, filter: None },
+            entries: vec![(key, gen_cov(&mut Rng::new(3), 0))],
+        };
+        let r = run_impl(&case.cfg, &case.entries);
+        rep.count(&format!("symlink.witness.{}", name));
+        match &r {
+            Ok(v) if v.len() == 1 && v[0].0 == abs && v[0].1 == rel => {
+                rep.count(&format!("symlink.witness.{}.reproduced_on_real_code", name));
+            }
+            _ => rep.fail("disagreement", None,
+                format!("symlink situation {} of Props/C11Symlink.lean no longer behaves as proved: {}", name, show_recs(&r)),
+                case.to_json("rewrite", &t)),
+        }
+        let out = show_recs(&r);
+        let req = request("rewrite", &t, &case.cfg, &case.entries);
+        let model = run_model_named("gm_c11", &[req.clone()], &rep.workdir, "symwitness");
+        rep.case(&req, true);
+        check_case(rep, &t, &case, &out, &model[0]);
+    }
 }
 
 /// one recorded rewrite case: oracle, model tie, and the recorded expectation when there is one
@@ -493,7 +553,7 @@ pub fn run(rep: &mut Report) {
     rewrite_stream(rep, &mut rng);
     partial::run(rep);
     idem::run(rep);
-    rep.notes.push("Java/Kotlin keys (map_partial_path): see part Partial (src/partial.rs); in the streams above exclusion markers, symlinks and keys whose first character is a cased non-ASCII letter are outside the generated domain; relative keys without source dir are resolved against the process cwd, which the harness sets to <tree>/cw".into());
+    rep.notes.push("Java/Kotlin keys (map_partial_path): see part Partial (src/partial.rs); in the streams above exclusion markers and keys whose first character is a cased non-ASCII letter are outside the generated domain; relative keys without source dir are resolved against the process cwd, which the harness sets to <tree>/cw".into());
 }
 
 pub fn replay(rep: &mut Report, case: &serde_json::Value) {
